@@ -52,6 +52,7 @@ pub fn fragment_shapes() -> Vec<Baseline> {
                 fragments: c.iter().enumerate().map(|(i, n)| vec![c09::mk_run(1, o, *n, i as u32)]).collect(),
                 mehd: None,
                 large_moof: oi % 2 == 1,
+                offsets_only: false,
             };
             let init = init_nodes(&m);
             let (media, _) = media_nodes(&m);
